@@ -153,6 +153,38 @@ func fragSizes(g *Gen, n int, o *Out) {
 			check("C03", "run of not", nots+"p == 0", k, d0, map[bool]string{true: "T", false: "F"}[k%2 == 0])
 		}
 	}
+	// ---- C18 / C11 / C03: a parser budget at or above the parse's step count changes nothing at evaluation time,
+	// however many elements the quantifiers visit: the collections are sized from the step count itself, so that
+	// the lookups of one Evaluate call exceed every budget tried
+	for _, text := range []string{
+		"all xs as x { x != -8 }",
+		"any ints as y { y == -7 }",
+		"(all xs as x { x != -8 }) and (all ints as y { y != -8 }) and p == 0",
+		"not (not (all xs as x { x != -8 }) or not (any ints as y { y == -7 }))",
+	} {
+		_, _, N, _ := parseCount(text)
+		k := int(2*N) + 16
+		xs := make([]interface{}, k)
+		ints := make([]int, k)
+		for i := range xs {
+			xs[i], ints[i] = i, i
+		}
+		xs[k-1], ints[k-1] = -7, -7
+		dd := map[string]interface{}{"xs": xs, "ints": ints, "p": 0}
+		plain := realEval(text, nil, dd)
+		if plain != "T" {
+			o.finding(Finding{Property: "C03", Kind: "failing-input", What: fmt.Sprintf("every operand is true over %d elements, the outcome is %s", k, plain), Request: fmt.Sprintf("sizes budget neutral (size %d)", k), Detail: text})
+		}
+		for _, b := range []uint64{N, N + 7, 2 * N} {
+			if got := realEval(text, []OptSpec{{Kind: "max", Max: b}}, dd); got != plain {
+				o.finding(Finding{Property: "C18", Kind: "failing-input", What: fmt.Sprintf("a budget of %d (the parse takes %d steps) changes the outcome over collections of %d elements: %s vs %s", b, N, k, got, plain), Request: fmt.Sprintf("sizes budget neutral (size %d)", k), Detail: text})
+				o.finding(Finding{Property: "C03", Kind: "failing-input", What: fmt.Sprintf("under a budget of %d steps over %d elements the outcome is %s, but %s without the budget (each operand is true on its own)", b, k, got, plain), Request: fmt.Sprintf("sizes budget neutral (size %d)", k), Detail: text})
+				o.finding(Finding{Property: "C11", Kind: "failing-input", What: fmt.Sprintf("a budget of %d >= N=%d acts at evaluation time (%d elements): %s vs %s", b, N, k, got, plain), Request: fmt.Sprintf("sizes budget neutral (size %d)", k), Detail: text})
+				break
+			}
+			o.meta.Cases++
+		}
+	}
 	for _, k := range ladder {
 		// ---- C06 / C01 / C05: collections of k elements
 		xs := make([]interface{}, k)
@@ -168,23 +200,6 @@ func fragSizes(g *Gen, n int, o *Out) {
 			m[fmt.Sprintf("k%06d", k-1)] = -7
 		}
 		d := map[string]interface{}{"xs": xs, "ints": ints, "m": m}
-		if k >= 64 {
-			// a parser budget above the parse's step count changes nothing at evaluation time, however many
-			// elements the quantifiers visit (two quantifiers, so that a per-call allowance is spent twice)
-			text := "all xs as x { x != -8 } and all ints as y { y != -8 } and p == 0"
-			dd := map[string]interface{}{"xs": xs, "ints": ints, "p": 0}
-			_, _, N, _ := parseCount(text)
-			plain := realEval(text, nil, dd)
-			for _, b := range []uint64{N, N + 7, 2 * N} {
-				if got := realEval(text, []OptSpec{{Kind: "max", Max: b}}, dd); got != plain {
-					o.finding(Finding{Property: "C18", Kind: "failing-input", What: fmt.Sprintf("a budget of %d (the parse takes %d steps) changes the outcome over collections of %d elements: %s vs %s", b, N, k, got, plain), Request: fmt.Sprintf("sizes budget neutral (size %d)", k), Detail: text})
-					o.finding(Finding{Property: "C03", Kind: "failing-input", What: fmt.Sprintf("A and B under a budget of %d steps over %d elements: %s, but %s without the budget (each operand is true on its own)", b, k, got, plain), Request: fmt.Sprintf("sizes budget neutral (size %d)", k), Detail: text})
-					o.finding(Finding{Property: "C11", Kind: "failing-input", What: fmt.Sprintf("a budget of %d >= N=%d acts at evaluation time (%d elements): %s vs %s", b, N, k, got, plain), Request: fmt.Sprintf("sizes budget neutral (size %d)", k), Detail: text})
-					break
-				}
-				o.meta.Cases++
-			}
-		}
 		anyWant, emptyWant := "T", "F"
 		if k == 0 {
 			anyWant, emptyWant = "F", "T"
